@@ -49,6 +49,7 @@ QUICK_A = [
     "leftrec", "midrec", "ambig-binop", "ambig-concat", "ambig-concat-null", "cyclic-unit", "prop-c03",
     "hidden-left", "hidden-right", "known-c02", "nullable-chain", "two-nullables", "dangling-else", "lex-a-aa",
     "lex-a-ab-b", "paren", "rr-conflict", "palindrome", "bounded-amb", "cyclic-null", "deep-unit-cycle", "g8",
+    "lex-alt", "nullable-tails", "glr-revisit", "nullable-rhs3",
 ]
 
 FORESTS = {
@@ -64,6 +65,7 @@ FORESTS = {
 def universe():
     out = [(g, 5) for g in corpus.shapes()]
     out += [(g, 5) for g in corpus.gf_tiny(3)]
+    out += [(g, 4) for g in corpus.tiny3x3_fixed()]
     return out
 
 
@@ -83,6 +85,8 @@ def cases(tier, seed):
             for tb in ("LALR", "SLR"):
                 out.append(_caseA(g, tb, 5, 1500))
         for g in corpus.gf_tiny(3):
+            out.append(_caseA(g, "LALR", 4))
+        for g in corpus.tiny3x3_fixed():
             out.append(_caseA(g, "LALR", 4))
         for f in FORESTS:
             out.append({"name": "B:%s" % f, "params": {"kind": "B", "forest": f}, "budget_s": 3000})
